@@ -92,28 +92,52 @@ fn alphabet(own: u16, foreign: u16, rich: bool) -> Vec<(String, &'static str)> {
     v
 }
 
-/// (data_chunks, pending length, width, height) read from the derived Debug output.
-fn private_fields(s: &VirtualSign<'_>) -> (u32, usize, u64, u64) {
-    let d = format!("{:?}", s);
-    let grab = |key: &str| -> u64 {
-        let i = d.rfind(key).map(|i| i + key.len()).unwrap_or(0);
-        d[i..].chars().take_while(|c| c.is_ascii_digit()).collect::<String>().parse().unwrap_or(0)
-    };
-    let chunks = grab("data_chunks: ") as u32;
-    let w = grab(" width: ");
-    let h = grab(" height: ");
-    let plen = match (d.rfind("pending_data: ["), d.rfind("], data_chunks")) {
-        (Some(a), Some(b)) if b >= a + 15 => {
-            let inner = &d[a + 15..b];
-            if inner.trim().is_empty() {
-                0
-            } else {
-                inner.split(',').count()
+/// What the documented sign-side state machine keeps besides the reported state: the number of chunks accepted in the
+/// current transfer, the bytes buffered for the page being received and the configured size.  The monitors maintain it
+/// themselves from the messages delivered; nothing is read out of the implementation's private fields (a refactoring may
+/// rename or restructure those freely).
+#[derive(Clone, Copy, PartialEq, Eq, Hash, Default, Debug)]
+struct Shadow {
+    chunks: u32,
+    plen: usize,
+    w: u64,
+    h: u64,
+}
+
+/// The shadow after a sign with address `own`, in reported state `st`, has been given `msg`.
+fn shadow_after(sh: Shadow, own: Address, st: State, msg: &Message<'_>) -> Shadow {
+    let mut s = sh;
+    match msg {
+        Message::SendData(off, data) => {
+            let d: &[u8] = data.get();
+            if st == State::ConfigInProgress {
+                if off.0 == 0 && d.len() == 16 && (d[0] == 0x04 || d[0] == 0x08) {
+                    if d[0] == 0x04 {
+                        s.w = d[5..9].iter().map(|&b| b as u64).sum();
+                        s.h = d[4] as u64;
+                    } else {
+                        s.w = d[7] as u64;
+                        s.h = d[5] as u64;
+                    }
+                    s.chunks = (s.chunks + 1) & 0xFFFF;
+                }
+            } else if st == State::PixelsInProgress {
+                if off.0 == 0 {
+                    s.plen = 0;
+                }
+                s.plen += d.len();
+                s.chunks = (s.chunks + 1) & 0xFFFF;
             }
         }
-        _ => 0,
-    };
-    (chunks, plen, w, h)
+        Message::DataChunksSent(_) if st == State::ConfigInProgress || st == State::PixelsInProgress => {
+            s.chunks = 0;
+            s.plen = 0;
+        }
+        Message::Goodbye(a) if *a == own => s = Shadow::default(),
+        Message::RequestOperation(a, Operation::FinishReset) if *a == own && st == State::ReadyToReset => s = Shadow::default(),
+        _ => {}
+    }
+    s
 }
 
 // ---------------------------------------------------------------------------------------------
@@ -151,10 +175,10 @@ fn total_bytes(w: u64, h: u64) -> u64 {
 }
 
 /// Model-free monitors on one implementation step. Returns None if all hold.
-fn step_monitor(before: &VirtualSign<'static>, msg: &Message<'_>, after: &VirtualSign<'static>, reply: &Option<Message<'_>>) -> Option<String> {
+fn step_monitor(before: &VirtualSign<'static>, sh: Shadow, auto: bool, msg: &Message<'_>, after: &VirtualSign<'static>, reply: &Option<Message<'_>>) -> Option<String> {
     let own = before.address();
     let st = before.state();
-    let (chunks_b, _, _, _) = private_fields(before);
+    let chunks_b = sh.chunks;
     let expect_reply: Option<Message<'static>>;
     let expect_state: State;
     let mut whole_state_unchanged = false;
@@ -180,7 +204,7 @@ fn step_monitor(before: &VirtualSign<'static>, msg: &Message<'_>, after: &Virtua
         Message::PixelsComplete(a) if *a == own => {
             expect_reply = None;
             expect_state = if st == State::PixelsReceived {
-                match format!("{:?}", before).contains("flip_style: Automatic") {
+                match auto {
                     true => State::ShowingPages,
                     false => State::PageLoaded,
                 }
@@ -240,22 +264,19 @@ fn step_monitor(before: &VirtualSign<'static>, msg: &Message<'_>, after: &Virtua
     }
     // reset returns to the blank condition
     if after.state() == State::Unconfigured && (msg_is_reset(msg, own, st)) {
-        let blank = VirtualSign::new(own, if format!("{:?}", before).contains("flip_style: Automatic") { PageFlipStyle::Automatic } else { PageFlipStyle::Manual });
+        let blank = VirtualSign::new(own, if auto { PageFlipStyle::Automatic } else { PageFlipStyle::Manual });
         if *after != blank {
             return Some("reset/goodbye did not return the sign to the blank unconfigured condition".to_string());
         }
     }
-    // stored pages are complete pages of the configured size; counters are clean outside transfers
-    let (chunks_a, plen_a, w, h) = private_fields(after);
+    // stored pages are complete pages of the configured size (the size the documented rules derive from the block)
+    let Shadow { w, h, .. } = shadow_after(sh, own, st, msg);
     for p in after.pages() {
         if p.width() as u64 != w || p.height() as u64 != h || p.as_bytes().len() as u64 != total_bytes(w, h) || w == 0 || h == 0 {
             return Some(format!("stored page {}x{} ({} bytes) is not a complete page of the configured size {}x{}", p.width(), p.height(), p.as_bytes().len(), w, h));
         }
     }
     let s2 = after.state();
-    if s2 != State::ConfigInProgress && s2 != State::PixelsInProgress && s2 != State::ReadyToReset && (chunks_a != 0 || plen_a != 0) {
-        return Some(format!("outside a transfer but chunk counter {} / {} buffered bytes", chunks_a, plen_a));
-    }
     if matches!(s2, State::Unconfigured | State::ConfigInProgress | State::ConfigReceived | State::ConfigFailed) && !after.pages().is_empty() {
         return Some("pages stored in a configuration state".to_string());
     }
@@ -283,6 +304,7 @@ struct Explored {
     /// for each state: (parent index, message that led here)
     nodes: Vec<(usize, String)>,
     signs: Vec<VirtualSign<'static>>,
+    shadows: Vec<Shadow>,
     fixed_point: bool,
     transitions: u64,
 }
@@ -309,16 +331,20 @@ struct Bounds {
 
 fn explore(ctx: &mut Ctx, own: u16, style: PageFlipStyle, rich: bool, b: &Bounds, emit: bool) -> Explored {
     let start = VirtualSign::new(Address(own), style);
-    let mut ex = Explored { nodes: vec![(0, String::new())], signs: vec![start.clone()], fixed_point: true, transitions: 0 };
-    let mut index: HashMap<VirtualSign<'static>, usize> = HashMap::new();
-    index.insert(start, 0);
+    let mut ex = Explored { nodes: vec![(0, String::new())], signs: vec![start.clone()], shadows: vec![Shadow::default()], fixed_point: true, transitions: 0 };
+    // a node is an implementation state together with the documented machine's own bookkeeping for the history that led
+    // there (for the unchanged code the second is a function of the first, so this is the implementation's state graph)
+    let mut index: HashMap<(VirtualSign<'static>, Shadow), usize> = HashMap::new();
+    index.insert((start, Shadow::default()), 0);
+    let auto = style == PageFlipStyle::Automatic;
     let mut queue: VecDeque<usize> = VecDeque::new();
     queue.push_back(0);
     let alpha = alphabet(own, own.wrapping_add(2), rich);
     let st = str_style(style);
     while let Some(i) = queue.pop_front() {
         let cur = ex.signs[i].clone();
-        let (chunks, plen, w, h) = private_fields(&cur);
+        let sh = ex.shadows[i];
+        let Shadow { chunks, plen, w, h } = sh;
         // bounds: do not expand beyond them (the state itself was still checked when reached)
         let pend_bound = total_bytes(w, h) * b.pending_pages + b.pending_extra;
         if cur.pages().len() > b.pages || plen as u64 > pend_bound || chunks > b.chunks {
@@ -347,18 +373,22 @@ fn explore(ctx: &mut Ctx, own: u16, style: PageFlipStyle, rich: bool, b: &Bounds
                 }
                 Some(reply) => {
                     ctx.monitor(true, "C12-no-panic", &line, "");
-                    let v = step_monitor(&cur, &msg, &next, &reply);
+                    let v = step_monitor(&cur, sh, auto, &msg, &next, &reply);
                     ctx.monitor(v.is_none(), "C13-state-machine", &line, v.as_deref().unwrap_or(""));
                 }
             }
-            if !index.contains_key(&next) {
+            let sh_next = shadow_after(sh, cur.address(), cur.state(), &msg);
+            let key = (next, sh_next);
+            if !index.contains_key(&key) {
                 if ex.signs.len() >= b.max_states {
                     ex.fixed_point = false;
                     continue;
                 }
                 let j = ex.signs.len();
-                index.insert(next.clone(), j);
+                index.insert(key.clone(), j);
+                let (next, _) = key;
                 ex.signs.push(next);
+                ex.shadows.push(sh_next);
                 ex.nodes.push((i, m.clone()));
                 queue.push_back(j);
             }
@@ -398,9 +428,10 @@ fn gen_vsign(ctx: &mut Ctx) {
         let style = if wk % 2 == 0 { PageFlipStyle::Manual } else { PageFlipStyle::Automatic };
         let alpha = alphabet(own, own.wrapping_add(1), true);
         let mut s = VirtualSign::new(Address(own), style);
+        let mut sh = Shadow::default();
         let mut hist: Vec<String> = vec![];
         for _ in 0..steps {
-            let (chunks, _, w, h) = private_fields(&s);
+            let Shadow { chunks, plen, w, h } = sh;
             // bias towards making progress: legal requests and the true count half of the time
             let m: String = match rng.below(10) {
                 0 | 1 => format!("DC.{}", chunks),
@@ -410,7 +441,6 @@ fn gen_vsign(ctx: &mut Ctx) {
                 }
                 3 if s.state() == State::PixelsInProgress && w > 0 && h > 0 => {
                     // a well-formed chunk continuing the current page
-                    let (_, plen, _, _) = private_fields(&s);
                     let total = total_bytes(w, h) as usize;
                     let off = if plen >= total { 0 } else { plen };
                     let len = 16.min(total - off.min(total - 1));
@@ -433,7 +463,8 @@ fn gen_vsign(ctx: &mut Ctx) {
                     break;
                 }
                 Some(reply) => {
-                    let v = step_monitor(&before, &msg, &s, &reply);
+                    let v = step_monitor(&before, sh, style == PageFlipStyle::Automatic, &msg, &s, &reply);
+                    sh = shadow_after(sh, before.address(), before.state(), &msg);
                     if v.is_some() {
                         ctx.monitor(false, "C13-state-machine", &format!("VS {} {} {}", own, str_style(style), hist.join(" ")), v.as_deref().unwrap());
                         break;
@@ -601,6 +632,7 @@ fn gen_c14(ctx: &mut Ctx) {
         // observably equal to its twin for the whole history (so hidden state picked up from foreign traffic
         // shows as soon as it has an effect).
         let mut twins: Vec<VirtualSign<'static>> = (0..k).map(|i| VirtualSign::new(Address(addrs[i]), styles[i])).collect();
+        let mut shadows: Vec<Shadow> = vec![Shadow::default(); k];
         let absent = [9u16, 0];
         let mut hist: Vec<String> = vec![];
         let head: String = (0..k).map(|i| format!("{} {}", addrs[i], str_style(styles[i]))).collect::<Vec<_>>().join(" ");
@@ -641,12 +673,15 @@ fn gen_c14(ctx: &mut Ctx) {
                 10 => {
                     // the true count of some sign
                     let i = rng.below(k as u64) as usize;
-                    format!("DC.{}", private_fields(bus.sign(i)).0)
+                    format!("DC.{}", shadows[i].chunks)
                 }
                 _ => format!("DC.{}", rng.below(4)),
             };
             let msg = msg_of_str(&m);
             let before: Vec<VirtualSign<'static>> = (0..k).map(|i| bus.sign(i).clone()).collect();
+            for i in 0..k {
+                shadows[i] = shadow_after(shadows[i], Address(addrs[i]), before[i].state(), &msg);
+            }
             let r = guarded(|| bus.process_message(msg_of_str(&m)));
             hist.push(m.clone());
             let line = format!("BUS {} {} {}", k, head, hist.join(" "));
